@@ -7,9 +7,11 @@ import props
 ROOT = os.path.join(os.path.dirname(os.path.abspath(__file__)), "..")
 hooks = json.load(open(os.path.join(ROOT, "tools", "hooks.json")))
 na = json.load(open(os.path.join(ROOT, "tools", "not_applicable.json")))
+claims = json.load(open(os.path.join(ROOT, "tools", "claims.json")))
 checks = []
 for pid in sorted(props.PROPS):
-    cfg = props.PROPS[pid]
+    cfg = dict(props.PROPS[pid])
+    cfg.update(claims.get(pid, {}))
     checks.append({
         "property_id": pid,
         "quick_cmd": "./check %s --tier quick" % pid,
